@@ -188,7 +188,7 @@ class PEngine:
 
         def body():
             try:
-                self.get((self.root, self.ALL, ()), None)
+                self.get((self.root, self.ALL, (), "o0"), None)
                 while self.queue:
                     ctx = self.queue.pop()
                     self.queued.discard(ctx)
@@ -242,7 +242,7 @@ class PEngine:
 
     # ------------------------------------------------------------------ one context
     def analyse(self, ctx, summ):
-        fpath, S0, args = ctx
+        fpath, S0, args, mode = ctx
         fn = self.F.fn(fpath)
         is_root = fpath == self.root
         env0 = {1: P}
@@ -254,16 +254,17 @@ class PEngine:
             else:
                 env0[i + 2] = a
         heads = self.heads(fn)
-        # full state: (bb, S, env, prog, since, la, marks, ntok, nodes, brace_open)
+        # full state: (bb, S, env, prog, since, la, marks, ntok, nodes, brace_open, stray)
         # identity (key) = everything except the max-annotations (la, ntok, nodes, per-mark counts),
         # which are joined with max: they are only ever compared against upper bounds.
-        start = (0, S0, tuple(sorted(env0.items())), False, frozenset(), 0, marks0, 0, 0, False)
+        start = (0, S0, tuple(sorted(env0.items())), False, frozenset(), 0, marks0, 0, 0, False,
+                 1 if mode == "o1" else 0)
         table = {}
         work = []
 
         def push(st):
-            bb, cur, envt, prog, since, la, marks, ntok, nodes, bo = st
-            key = (bb, cur, envt, prog, since, tuple(m[0] for m in marks), bo)
+            bb, cur, envt, prog, since, la, marks, ntok, nodes, bo, sy = st
+            key = (bb, cur, envt, prog, since, tuple(m[0] for m in marks), bo, sy)
             ann = (la, ntok, nodes, tuple((m[1], m[2]) for m in marks))
             old = table.get(key)
             if old is None:
@@ -282,9 +283,9 @@ class PEngine:
         while work:
             key = work.pop()
             ann = table[key]
-            bb, cur, envt, prog, since, mids, bo = key
+            bb, cur, envt, prog, since, mids, bo, sy = key
             st = (bb, cur, envt, prog, since, ann[0], tuple((i, a[0], a[1]) for i, a in zip(mids, ann[3])),
-                  ann[1], ann[2], bo)
+                  ann[1], ann[2], bo, sy)
             self.states_explored += 1
             if len(table) > self.state_limit:
                 raise RuntimeError("state explosion in %s" % (ctx,))
@@ -293,18 +294,18 @@ class PEngine:
 
     def split(self, st, groups):
         """re-enter the same block with the kind set partitioned into `groups` (iterable of sets)"""
-        bb, S, envt, prog, since, la, marks, ntok, nodes, bo = st
+        bb, S, envt, prog, since, la, marks, ntok, nodes, bo, sy = st
         out = []
         for g in groups:
             g = frozenset(g)
             if not g:
                 continue
             envg = tuple((l, restrict(v, g)) for l, v in envt)
-            out.append((bb, g, envg, prog, since, la, marks, ntok, nodes, bo))
+            out.append((bb, g, envg, prog, since, la, marks, ntok, nodes, bo, sy))
         return out
 
     def step(self, fn, ctx, st, summ, heads, is_root):
-        bb, S, envt, prog, since0, la, marks, ntok, nodes, brace_open = st
+        bb, S, envt, prog, since0, la, marks, ntok, nodes, brace_open, stray = st
         facts = summ.facts
         since = since0
         if bb in heads:
@@ -345,16 +346,16 @@ class PEngine:
         k = t["k"]
 
         def mk(nbb, S=S, env=env, prog=prog, since=since, la=la, marks=marks, ntok=ntok, nodes=nodes,
-               brace_open=brace_open):
+               brace_open=brace_open, stray=stray):
             lv = live_all[nbb]
             return (nbb, S, tuple(sorted((l, v) for l, v in env.items() if l in lv)), prog, since, la, marks,
-                    ntok, nodes, brace_open)
+                    ntok, nodes, brace_open, stray)
 
         def mk_group(nbb, g):
             g = frozenset(g)
             lv = live_all[nbb]
             return (nbb, g, tuple(sorted((l, restrict(v, g)) for l, v in env.items() if l in lv)), prog, since, la,
-                    marks, ntok, nodes, brace_open)
+                    marks, ntok, nodes, brace_open, stray)
 
         if k == "goto" or k == "drop":
             return [mk(t["target"])]
@@ -364,11 +365,11 @@ class PEngine:
                 groups = defaultdict(set)
                 for kk in S:
                     groups[inst(ret, kk)].add(kk)
-                return self.split((bb, S, envt, prog, since0, la, marks, ntok, nodes, brace_open), groups.values())
+                return self.split((bb, S, envt, prog, since0, la, marks, ntok, nodes, brace_open, stray), groups.values())
             for m in marks:
                 facts.leaks.setdefault((fn.path, m[0]), {"fn": fn.path, "mark": m[0], "ctx": self.chain(),
                                                          "why": "still open at return", "line": t["ln"]})
-            key = (prog, ret, None if prog else S)
+            key = (prog, ret, None if prog else S, stray)
             old = summ.outs.get(key)
             new = (la, ntok, nodes) if old is None else (max(old[0], la), max(old[1], ntok), max(old[2], nodes))
             if new != old:
@@ -466,7 +467,7 @@ class PEngine:
         return r
 
     def call(self, fn, ctx, st, t, env, mk, mk_group, summ, is_root):
-        bb, S, envt, prog, since0, la, marks, ntok, nodes, brace_open = st
+        bb, S, envt, prog, since0, la, marks, ntok, nodes, brace_open, stray = st
         facts = summ.facts
         name = callee(t) or callee_def(t) or ""
         args = [self.pure.operand(a, env, fn) for a in t["args"]]
@@ -521,11 +522,11 @@ class PEngine:
             groups = defaultdict(set)
             for kk in S:
                 groups[tuple(inst(a, kk) for a in args)].add(kk)
-            return self.split((bb, S, envt, prog, since0, la, marks, ntok, nodes, brace_open), groups.values())
+            return self.split((bb, S, envt, prog, since0, la, marks, ntok, nodes, brace_open, stray), groups.values())
 
         leaf = name[len(PARSER):] if name.startswith(PARSER) and name[len(PARSER):] in LEAVES else None
         if self.singletons and len(S) > 1 and (leaf in ("nth", "eof", "bump") or leaf is None):
-            return self.split((bb, S, envt, prog, since0, la, marks, ntok, nodes, brace_open), [[k2] for k2 in sorted(S)])
+            return self.split((bb, S, envt, prog, since0, la, marks, ntok, nodes, brace_open, stray), [[k2] for k2 in sorted(S)])
         if leaf == "nth":
             la2 = la + 1
             if prog or is_root:
@@ -544,7 +545,7 @@ class PEngine:
                 self.panic(facts, fn, bb, t, {"EOF"}, "bump() at end of input: assert!(!self.eof()) fails")
                 if S == {"EOF"}:
                     return []
-                return self.split((bb, S, envt, prog, since0, la, marks, ntok, nodes, brace_open), [S - {"EOF"}])
+                return self.split((bb, S, envt, prog, since0, la, marks, ntok, nodes, brace_open, stray), [S - {"EOF"}])
             # values that still depend on the token about to be consumed must be made concrete
             lv = self.live_in(fn)[tgt]
             dep = [v for l, v in env.items() if l in lv and has_table(v)]
@@ -553,15 +554,20 @@ class PEngine:
                 for kk in S:
                     groups[tuple(inst(v, kk) for v in dep)].add(kk)
                 if len(groups) > 1:
-                    return self.split((bb, S, envt, prog, since0, la, marks, ntok, nodes, brace_open), groups.values())
-            self.note_consume(facts, fn, bb, t, S, None, brace_open)
+                    return self.split((bb, S, envt, prog, since0, la, marks, ntok, nodes, brace_open, stray), groups.values())
+            # stray closer: a `}` consumed while no `{..}` region is open anywhere on the call stack
+            oob = ctx[3] != "i" and not brace_open
+            if oob and "R_BRACE" in S and len(S) > 1:
+                return self.split((bb, S, envt, prog, since0, la, marks, ntok, nodes, brace_open, stray),
+                                  [{"R_BRACE"}, S - {"R_BRACE"}])
+            self.note_consume(facts, fn, bb, t, S, None, brace_open, stray)
             if not prog:
                 summ.first = summ.first | S
             m2 = tuple((i, min(n_ + 1, 2), c) for i, n_, c in marks)
             e2 = {l: restrict(v, S) for l, v in env.items()}
             e2[dest] = UNIT
             return [mk(tgt, S=self.ALL, env=e2, prog=True, since=frozenset(), la=0, marks=m2,
-                       ntok=min(ntok + 1, 2))]
+                       ntok=min(ntok + 1, 2), stray=1 if (oob and S == {"R_BRACE"}) else 0)]
         if leaf in ("start_node", "start_node_before"):
             mid = "m%d" % self.site_ordinal(fn, bb) + ("b" if leaf.endswith("before") else "")
             if any(m[0] == mid for m in marks):
@@ -601,7 +607,7 @@ class PEngine:
             for kk in S:
                 groups[tuple(inst(v, kk) for v in dep)].add(kk)
             if len(groups) > 1:
-                return self.split((bb, S, envt, prog, since0, la, marks, ntok, nodes, brace_open), groups.values())
+                return self.split((bb, S, envt, prog, since0, la, marks, ntok, nodes, brace_open, stray), groups.values())
         cargs = []
         passed = []
         for a in args[1:] if args and args[0] == P else args:
@@ -611,7 +617,8 @@ class PEngine:
             else:
                 cargs.append(a)
         marks_c = tuple(x for x in marks if x[0] not in passed)
-        cctx = (name, S, tuple(cargs))
+        cmode = "i" if (ctx[3] == "i" or brace_open) else ("o1" if stray else "o0")
+        cctx = (name, S, tuple(cargs), cmode)
         facts.edges.add((cctx, brace_open))
         if not prog:
             facts.noprog.add(cctx)
@@ -628,12 +635,14 @@ class PEngine:
         karg = args[1][2] if len(args) > 1 and isinstance(args[1], tuple) and args[1][0] == "e" else None
         if s.first:
             if short in CONSUMERS:
-                self.note_consume(facts, fn, bb, t, s.first, karg, brace_open)
+                self.note_consume(facts, fn, bb, t, s.first, karg, brace_open, stray)
             if not prog:
                 summ.first = summ.first | s.first
         out = []
-        for (cprog, cret, S_out), (cla, cntok, cnodes) in sorted(s.outs.items(), key=repr):
+        for (cprog, cret, S_out, cstray), (cla, cntok, cnodes) in sorted(s.outs.items(), key=repr):
             bo = brace_open
+            if is_root or cmode == "i":
+                cstray = 0      # back at the top-level dispatcher loop / inside a brace region
             if short in ("eat", "expect") and karg == "R_BRACE":
                 bo = False
             if cprog:
@@ -645,23 +654,31 @@ class PEngine:
                 e2 = {l: restrict(v, S) for l, v in env.items()}
                 e2[dest] = cret
                 out.append(mk(tgt, S=self.ALL, env=e2, prog=True, since=frozenset(), la=0, marks=m2,
-                              ntok=min(ntok + cntok, 2), nodes=1 if (nodes or cnodes) else 0, brace_open=bo))
+                              ntok=min(ntok + cntok, 2), nodes=1 if (nodes or cnodes) else 0, brace_open=bo,
+                              stray=cstray))
             else:
                 m2 = tuple((i, n_, 1 if cnodes else c) for i, n_, c in marks_c)
                 e2 = {l: restrict(v, S_out) for l, v in env.items()}
                 e2[dest] = cret
                 out.append(mk(tgt, S=S_out, env=e2, la=la + cla, marks=m2,
-                              nodes=1 if (nodes or cnodes) else 0, brace_open=bo))
+                              nodes=1 if (nodes or cnodes) else 0, brace_open=bo, stray=0 if is_root else stray))
         return out
 
-    def note_consume(self, facts, fn, bb, t, kinds, karg, brace_open):
+    def note_consume(self, facts, fn, bb, t, kinds, karg, brace_open, stray=0):
         if fn.path.startswith(PARSER):
             return   # attributed to the grammar function that asked for it
         name = (callee(t) or "").rsplit("::", 1)[-1]
         key = (fn.path, name, karg, self.site_ordinal(fn, bb))
         d = facts.consume.setdefault(key, {"fn": fn.path, "line": t["ln"], "callee": name, "karg": karg,
-                                           "kinds": set(), "kinds_open": set(), "ctx": None})
+                                           "kinds": set(), "kinds_open": set(), "ctx": None,
+                                           "after_stray": set(), "stray_ctx": None})
         d["kinds"] |= set(kinds)
+        if stray:
+            # the token consumed here directly follows a `}` that was consumed outside every brace
+            # region, and the parser has not been back at the top-level dispatcher since
+            d["after_stray"] |= set(kinds)
+            if d["stray_ctx"] is None:
+                d["stray_ctx"] = self.chain()
         if brace_open:
             d["kinds_open"] |= set(kinds)
         if "R_BRACE" in kinds and d["ctx"] is None:
@@ -672,7 +689,7 @@ class PEngine:
         T = self.table
         # contexts reachable from the root through the final summaries
         reach = set()
-        st = [(self.root, self.ALL, ())]
+        st = [(self.root, self.ALL, (), "o0")]
         while st:
             c = st.pop()
             if c in reach or c not in T:
@@ -717,8 +734,12 @@ class PEngine:
             for k, v in f.consume.items():
                 d = self.consume_sites.setdefault(k, {"fn": v["fn"], "line": v["line"], "callee": v["callee"],
                                                       "karg": v["karg"], "kinds": set(), "brace_kinds": set(),
-                                                      "ctx": None, "open_kinds": set(), "stolen": set()})
+                                                      "ctx": None, "open_kinds": set(), "stolen": set(),
+                                                      "after_stray": set(), "stray_ctx": None})
                 d["kinds"] |= v["kinds"]
+                d["after_stray"] |= v["after_stray"]
+                if v["stray_ctx"] and d["stray_ctx"] is None:
+                    d["stray_ctx"] = v["stray_ctx"]
                 d["open_kinds"] |= v["kinds_open"]
                 inside = set(v["kinds_open"]) | (set(v["kinds"]) if c in inb else set())
                 d["brace_kinds"] |= inside
@@ -737,7 +758,7 @@ class PEngine:
         # tails: look-aheads after the last consumption before returning, per function
         self.tails = {}
         for c in reach:
-            for (prog, _, _), (la, _, _) in T[c].outs.items():
+            for (prog, _, _, _), (la, _, _) in T[c].outs.items():
                 if prog and la > self.tails.get(c[0], (0, None))[0]:
                     self.tails[c[0]] = (la, c)
 
